@@ -135,6 +135,8 @@ def pairOf (j : Json) : Except String (Str × Str) :=
   | .arr #[.str a, .str b] => pure (a.toList, b.toList)
   | _ => throw "pair"
 
+def serOnlyMark : Str := "?serialize-only".toList
+
 /-- projection of the implementation's emitted facts; anything the projection cannot read faithfully
 is turned into a value the model never produces (so that it shows up as a mismatch) -/
 def implFacts (impl : Json) : Except String Facts := do
@@ -158,6 +160,9 @@ def implFacts (impl : Json) : Except String Facts := do
     let untagged ← boolOf (← field e "untagged")
     if untagged then
       pure ({ name := name.toList, untagged := true, tag := [], arms := [], fallback := none, types := variants.map (·.2) } : EnumF)
+    else if fieldD e "de" Json.null == Json.null then
+      -- no `Deserialize` impl at all (a type that only ever travels in requests): nothing to dispatch
+      pure ({ name := name.toList, untagged := false, tag := ← chars (← field e "tag"), arms := [], fallback := some serOnlyMark, types := variants.map (·.2) } : EnumF)
     else
       let de ← field e "de"
       let odd := (← arr (fieldD de "odd" (Json.arr #[]))).length
@@ -201,6 +206,9 @@ def clauseStr : Clause → String
 def knownStr : Known → String
   | .memberNotInMapping => "KnownMemberNotInMapping" | .tagLostOnDecode => "KnownTagLostOnDecode" | .sharedChild => "KnownSharedChildTag"
   | .unreachableChild => "KnownUnreachableChildDropped" | .denyUnknownTag => "KnownDenyUnknownTag"
+  | .siteUntyped => "KnownSiteUntyped" | .implicitNotSynth => "KnownInlineImplicitMappingIgnored"
+  | .namedTwin => "KnownNamedTwinDiscriminator" | .inlineTwin => "KnownInlineTwinMapping"
+  | .arrayWrapperFlattened => "KnownArrayWrapperFlattened"
 
 def failureStr (f : Failure) : String :=
   s!"{clauseStr f.clause}[{String.ofList f.schema}: tag '{String.ofList f.tag}' -> {String.ofList f.target}]" ++
@@ -257,6 +265,191 @@ def run : Handler := fun req => do
     pure (Json.mkObj [("model", modelJ), ("match", modelJ == implJ), ("impl_facts", implJ),
       ("judge", verdict fails.isEmpty known why), ("branch", branch), ("probes", Json.arr probes.toArray)])
 
-def ops : List (String × Handler) := [("disc.run", run), ("disc.code", run)]
+
+-- ------------------------------------------------------------------------------------------
+-- `disc.site`: use sites
+
+def isNullSch (j : Json) : Bool := fieldD j "type" Json.null == Json.str "null"
+
+def isArraySch (j : Json) : Bool := fieldD j "type" Json.null == Json.str "array"
+
+def unionList (j : Json) : Option (Bool × List Json) :=
+  match fieldD j "oneOf" Json.null, fieldD j "anyOf" Json.null with
+  | .arr a, .null => some (true, a.toList)
+  | .null, .arr a => some (false, a.toList)
+  | _, _ => none
+
+/-- a union of component refs (nothing else) -/
+def plainUnion (schemas : Json) (j : Json) : Except String Sch :=
+  match unionList j with
+  | some (_, l) => if !l.isEmpty && l.all (fun x => (refName x).isSome) then pure (schOf schemas j) else throw "site: union members must be component refs"
+  | none => throw "site: not a union"
+
+/-- abstraction of the schema written at a use site; spellings outside the modelled grammar are refused -/
+def siteSchOf (schemas : Json) (j : Json) : Except String SiteSch := do
+  let arrOr (x : Json) : Except String (Bool × Sch) := do
+    if isArraySch x then pure (true, ← plainUnion schemas (fieldD x "items" Json.null)) else pure (false, ← plainUnion schemas x)
+  match unionList j with
+  | some (one, [a, b]) =>
+    if isNullSch b && (refName a).isNone then
+      let (ar, u) ← arrOr a
+      pure { arr := ar, wrap := some one, outerDisc := discOf j, u }
+    else
+      let (ar, u) ← arrOr j
+      pure { arr := ar, u }
+  | _ =>
+    let (ar, u) ← arrOr j
+    pure { arr := ar, u }
+
+def opSchema (spec : Json) (opId : String) (resp : Bool) : Except String Json := do
+  let found := (objList (fieldD spec "paths" Json.null)).flatMap (fun (_, item) =>
+    (objList item).filter (fun (m, op) => httpMethods.contains m && fieldD op "operationId" Json.null == Json.str opId))
+  match found with
+  | (_, op) :: _ =>
+    let content := if resp then fieldD (fieldD (fieldD op "responses" Json.null) "200" Json.null) "content" Json.null
+                   else fieldD (fieldD op "requestBody" Json.null) "content" Json.null
+    field (fieldD content "application/json" Json.null) "schema"
+  | [] => throw s!"site: no operation {opId}"
+
+def siteOf (spec : Json) (j : Json) : Except String Site := do
+  let id ← chars (← field j "id")
+  let at_ ← field j "at"
+  let schemasJ := fieldD (fieldD spec "components" Json.null) "schemas" Json.null
+  let g (k : String) : Except String String := do match ← field at_ k with | .str s => pure s | _ => throw "site: string expected"
+  match ← g "k" with
+  | "named" =>
+    let n ← g "name"
+    pure { id, pos := .named, holder := n.toList, s := ← siteSchOf schemasJ (← field schemasJ n) }
+  | "field" =>
+    let h ← g "holder"; let f ← g "field"
+    pure { id, pos := .field, holder := h.toList, field := f.toList,
+           s := ← siteSchOf schemasJ (← field (← field (← field schemasJ h) "properties") f) }
+  | "body" => let o ← g "op"; pure { id, pos := .body, holder := o.toList, s := ← siteSchOf schemasJ (← opSchema spec o false) }
+  | "resp" => let o ← g "op"; pure { id, pos := .resp, holder := o.toList, s := ← siteSchOf schemasJ (← opSchema spec o true) }
+  | k => throw s!"site: unknown kind {k}"
+
+def enumNoName (e : EnumF) : Json := enumJson { e with name := [] }
+
+def siteTyJson (id : Str) (t : SiteTy) : Json :=
+  Json.mkObj [("id", str id), ("vec", t.vec), ("value", t.value), ("enum", match t.en with | some e => enumNoName e | none => Json.null)]
+
+/-- the implementation's type at a site; anything unreadable becomes a value the model never produces -/
+def implSiteTy (fx : Facts) (j : Json) : Except String (Str × SiteTy) := do
+  let id ← chars (← field j "id")
+  let vec ← natOf (← field j "vec")
+  let core ← chars (← field j "core")
+  let kind := match fieldD j "kind" Json.null with | .str s => s | _ => "?"
+  let odd (why : String) : SiteTy := { vec, value := false, en := some { name := [], untagged := false, tag := ("?" ++ why).toList, arms := [], fallback := none, types := [] } }
+  match kind with
+  | "value" => pure (id, { vec, value := true, en := none })
+  | "tag" | "untagged" =>
+    (match findEnum fx core with
+     | some e => pure (id, { vec, value := false, en := some { e with name := [] } })
+     | none => pure (id, odd "enum-not-in-facts"))
+  | k => pure (id, odd k)
+
+def shapesOf (em : Json) : Except String (List ShapeF) := do
+  let venums := fieldD em "venums" Json.null
+  (objList (← field em "structs")).mapM (fun (name, s) => do
+    let flags ← charsList (← field s "serde")
+    let cdefault := flags.contains "default".toList
+    let fields ← arr (← field s "fields")
+    let infos ← fields.mapM (fun f => do
+      let wire ← chars (← field f "wire")
+      let fl ← charsList (← field f "serde")
+      let ty := match fieldD f "ty" Json.null with | .str t => t | _ => ""
+      let opt := ty.startsWith "Option<"
+      let skipped := fl.contains "skip".toList || fl.contains "skip_deserializing".toList
+      let hasDefault := fl.contains "default".toList
+      let inner := (if opt then ((ty.drop 7).dropEnd 1).toString else ty)
+      let inner := String.ofList (unbox inner)
+      let allowed : Option (List Str) := if skipped then none else
+        match venums.getObjVal? inner with
+        | .ok (.arr a) => some (a.toList.filterMap (fun x => match x with | .str v => some v.toList | _ => none))
+        | _ => none
+      pure (wire, !opt && !skipped && !hasDefault && !cdefault, allowed))
+    pure ({ name := name.toList, req := (infos.filter (·.2.1)).map (·.1),
+            allowed := infos.filterMap (fun i => i.2.2.map (fun a => (i.1, a))) } : ShapeF))
+
+def originStr : Origin → String
+  | .own _ => "own" | .named n => "named:" ++ String.ofList n | .earlier _ => "earlier" | .value => "value"
+
+def posStr : Pos → String
+  | .named => "N" | .field => "F" | .body => "B" | .resp => "R"
+
+def runSite : Handler := fun req => do
+  let inp ← field req "in"
+  let impl ← field req "impl"
+  let spec ← field inp "spec"
+  let sp0 ← specOf inp
+  -- member refs nested inside inline wrappers/arrays are invisible to `Sch`; they are reachable through their holder
+  let sp := { sp0 with roots := sp0.roots ++ allRefs (fieldD (fieldD spec "components" Json.null) "schemas" Json.null) }
+  let sites ← (← arr (← field inp "sites")).mapM (siteOf spec)
+  let pred := FSites sp sites
+  let mf := F sp
+  let modelJ := Json.mkObj [
+    ("cache", Json.arr (mf.cache.map (fun e => Json.arr #[str e.1, str e.2.field, str e.2.value])).toArray),
+    ("sites", Json.arr ((sortBy (·.1.id) pred).map (fun x => siteTyJson x.1.id x.2.2)).toArray)]
+  match impl.getObjVal? "registry" with
+  | .error _ =>
+    pure (Json.mkObj [("model", modelJ), ("match", false), ("judge", verdict false [] s!"implementation produced no output: {impl.compress}"), ("branch", "impl-error")])
+  | .ok _ =>
+    let fx ← implFacts impl
+    let shapes ← shapesOf (← field impl "emitted")
+    let isites ← (← arr (← field impl "sites")).mapM (implSiteTy fx)
+    let implJ := Json.mkObj [
+      ("cache", Json.arr (fx.cache.map (fun e => Json.arr #[str e.1, str e.2.field, str e.2.value])).toArray),
+      ("sites", Json.arr ((sortBy (·.1) isites).map (fun x => siteTyJson x.1 x.2)).toArray)]
+    -- a tag enum that is only ever SERIALISED has no dispatch table: tag constant and variant list are compared, decoding is not judged
+    let serOnly (id : Str) : Bool := match look id isites with
+      | some t => (match t.en with | some e => e.fallback == some serOnlyMark | none => false)
+      | none => false
+    let pred := pred.map (fun x =>
+      if serOnly x.1.id then
+        (x.1, x.2.1, { x.2.2 with en := x.2.2.en.map (fun e => if e.untagged then e else { e with arms := [], fallback := some serOnlyMark }) })
+      else x)
+    let modelJ := Json.mkObj [
+      ("cache", Json.arr (mf.cache.map (fun e => Json.arr #[str e.1, str e.2.field, str e.2.value])).toArray),
+      ("sites", Json.arr ((sortBy (·.1.id) pred).map (fun x => siteTyJson x.1.id x.2.2)).toArray)]
+    let judgedPred := pred.filter (fun x => !serOnly x.1.id)
+    -- the member structs (tag field treatment) must agree too: the judge reads them
+    let memberNames := mkSet (sites.flatMap (fun s => unionRefs s.s.u))
+    let leafJ (f : Facts) := Json.arr ((sortBy (·.name) (f.structs.filter (fun s => memberNames.contains s.name))).map structJson).toArray
+    let structsOk := leafJ mf == leafJ fx
+    let missing : SiteTy := { vec := 0, value := false, en := none }
+    let fails := judgedPred.flatMap (fun x => judgeSite sp fx shapes x.1 ((look x.1.id isites).getD missing) (siteClass sp x.1 x.2.1))
+    let mfails := judgedPred.flatMap (fun x => judgeSite sp mf shapes x.1 x.2.2 (siteClass sp x.1 x.2.1))
+    let known := if fails == mfails then (knownOf fails).map knownStr else []
+    let why := String.intercalate "; " ((fails.take 6).map failureStr) ++ (if fails == mfails then "" else " [model predicts different failures]")
+    let judged := pred.filter (fun x => (siteCore x.1.s).disc.isSome)
+    let branch := if judged.isEmpty then "trivial" else
+      String.intercalate "," ((sortBy (·.1.id) judged).map (fun x =>
+        posStr x.1.pos ++ (if x.1.s.wrap.isSome then "w" else "") ++ (if x.1.s.arr then "a" else "") ++ ":" ++ originStr x.2.1))
+        ++ s!"|f{fails.length}"
+    let wantProbes := match inp.getObjVal? "want_probes" with | .ok (.bool true) => true | _ => false
+    let probes : List Json := if !wantProbes then [] else
+      let e := envOf sp
+      let fuel := sp.schemas.length + 2
+      judgedPred.flatMap (fun x =>
+        let core := siteCore x.1.s
+        match core.disc, intended sp.schemas core with
+        | some d, some m =>
+          let st := (look x.1.id isites).getD missing
+          let members := unionRefs core
+          let entries := (m.filter (fun y => members.contains y.2 && permits e d.prop y.1 y.2)).map (fun y => (y.1, y.2))
+            ++ members.map (fun c => (unmappedProbe, c))
+          entries.map (fun (t, leaf) =>
+            let doc := validDoc e d.prop t leaf
+            let r := siteDecode fx shapes fuel st doc
+            Json.mkObj [("site", str x.1.id), ("prop", str d.prop), ("tag", str t), ("leaf", str leaf), ("vec", st.vec),
+              ("dec", match r with | .rejected => Json.str "rejected" | .untyped => Json.str "untyped" | .member ty => Json.mkObj [("member", str ty)]),
+              ("retag", match r with
+                | .member ty => (match findStruct fx ty with | some s => optStr (encodeTag s d.prop (some t)) | none => Json.null)
+                | _ => Json.null)])
+        | _, _ => [])
+    pure (Json.mkObj [("model", modelJ), ("match", modelJ == implJ && structsOk), ("impl_facts", implJ),
+      ("judge", verdict fails.isEmpty known why), ("branch", branch), ("probes", Json.arr probes.toArray)])
+
+def ops : List (String × Handler) := [("disc.run", run), ("disc.code", run), ("disc.site", runSite), ("disc.sitecode", runSite)]
 
 end Oas3.Driver.Discr
